@@ -567,10 +567,12 @@ def shrink(t, key):
         except Exception:  # noqa: BLE001
             return False
 
+    import time
+
     if not fails(cells):
         return t
-    changed = True
-    while changed and len(cells) > 1:
+    changed, t0 = True, time.time()
+    while changed and len(cells) > 1 and time.time() - t0 < 20:
         changed = False
         for i in range(len(cells)):
             cand = cells[:i] + cells[i + 1:]
